@@ -1,0 +1,36 @@
+// SPDX-FileCopyrightText: 2026 The Pion community <https://pion.ly>
+// SPDX-License-Identifier: MIT
+
+//go:build verif
+
+package rfc8888
+
+import "time"
+
+// C12StreamLog wraps the unexported streamLog (property C12: entries of the
+// log map). Only compiled with the "verif" build tag.
+type C12StreamLog struct{ l *streamLog }
+
+// C12NewStreamLog calls newStreamLog.
+func C12NewStreamLog(ssrc uint32) *C12StreamLog { return &C12StreamLog{l: newStreamLog(ssrc)} }
+
+// Add calls add.
+func (v *C12StreamLog) Add(ts time.Time, seq uint16) { v.l.add(ts, seq, 0) }
+
+// Report calls metricsAfter and returns the number of metric blocks.
+func (v *C12StreamLog) Report(now time.Time, maxBlocks int64) int {
+	return len(v.l.metricsAfter(now, maxBlocks).MetricBlocks)
+}
+
+// Size returns len(log).
+func (v *C12StreamLog) Size() int { return len(v.l.log) }
+
+// C12Streams returns len(streams) and the total number of log entries of a Recorder.
+func (r *Recorder) C12Streams() (int, int) {
+	n := 0
+	for _, l := range r.streams {
+		n += len(l.log)
+	}
+
+	return len(r.streams), n
+}
